@@ -219,24 +219,40 @@ func targetValue(id int) error {
 	panic("unknown target id " + strconv.Itoa(id))
 }
 
-// typeTarget returns a value of the dynamic type used as a HandleErrorTypes target.
-func typeTarget(ty int) any {
+// typeTarget returns a value of the dynamic type used as a HandleErrorTypes target; ptr selects the other of the two
+// forms the library documents as equivalent (pointer vs non-pointer target).
+func typeTarget(ty int, ptr bool) any {
 	switch ty {
 	case tyPlain:
 		return errors.New("any")
 	case tyVal:
+		if ptr {
+			return &ValErr{}
+		}
 		return ValErr{}
 	case tyPtr:
+		if ptr {
+			return &PtrErr{}
+		}
 		return PtrErr{} // non-pointer target for an error implemented with pointer receivers
 	case tyWrapC:
+		if ptr {
+			return WrapErr{}
+		}
 		return &WrapErr{}
 	case tyMultiC:
+		if ptr {
+			return &MultiErr{}
+		}
 		return MultiErr{}
 	case tyWrap:
 		return fmt.Errorf("%w", errors.New("x"))
 	case tyJoin:
 		return errors.Join(errors.New("a"), errors.New("b"))
 	case tyExceeded:
+		if ptr {
+			return &retrypolicy.ExceededError{}
+		}
 		return retrypolicy.ExceededError{}
 	case tyDeadline:
 		return context.DeadlineExceeded
@@ -257,22 +273,44 @@ func predicate(id int) func(int, error) bool {
 	return func(int, error) bool { return false }
 }
 
-// applyConds registers a condition list "I<id>,T<ty>,R<v>,P<id>" in order.
-func applyConds(text string, onErr func(error), onType func(any), onRes func(int), onPred func(func(int, error) bool)) {
+// applyConds registers a condition list "I<id>,T<ty>,U<ty>,R<v>,P<id>" in order. Consecutive error (resp. type) conditions
+// are registered with ONE variadic call, as users do (HandleErrors(a, b, c)). U<ty> is the pointer form of the type target.
+func applyConds(text string, onErrs func(...error), onTypes func(...any), onRes func(int), onPred func(func(int, error) bool)) {
 	if text == "-" || text == "" {
 		return
+	}
+	var errs []error
+	var types []any
+	flush := func() {
+		if len(errs) > 0 {
+			onErrs(errs...)
+			errs = nil
+		}
+		if len(types) > 0 {
+			onTypes(types...)
+			types = nil
+		}
 	}
 	for _, p := range strings.Split(text, ",") {
 		n, _ := strconv.Atoi(p[1:])
 		switch p[0] {
 		case 'I':
-			onErr(targetValue(n))
-		case 'T':
-			onType(typeTarget(n))
+			if len(types) > 0 {
+				flush()
+			}
+			errs = append(errs, targetValue(n))
+		case 'T', 'U':
+			if len(errs) > 0 {
+				flush()
+			}
+			types = append(types, typeTarget(n, p[0] == 'U'))
 		case 'R':
+			flush()
 			onRes(n)
 		case 'P':
+			flush()
 			onPred(predicate(n))
 		}
 	}
+	flush()
 }
